@@ -1,4 +1,5 @@
 CONSTANTS
+  Sites <- SiteTable
   BITS = 9
 SPECIFICATION Spec
 INVARIANT ITypeOK
